@@ -15,7 +15,7 @@ ANCHORS = ["CommonRoadSolutionWriter.dump", "CommonRoadSolutionWriter._create_su
            "CommonRoadSolutionReader._parse_state", "CommonRoadSolutionReader._parse_trajectory"]
 REQUIRED = ["kind.PM", "kind.ST", "kind.KS", "kind.KST", "kind.MB", "kind.Input", "kind.PMInput", "xsd.validated",
             "cooperative", "non-ascending-input", "meta.date.none", "meta.date.micro", "meta.date.cleared", "meta.date.midnight", "cost-and-vehicle-type-changed-after-id-was-read", "trajectory-reassigned-with-other-kind", "meta.processor_name",
-            "meta.computation_time", "pretty", "not-pretty", "file-route", "pp-id-reassigned-after-construction"]
+            "meta.computation_time", "meta.computation_time.numpy-scalar", "pretty", "not-pretty", "file-route", "pp-id-reassigned-after-construction"]
 ASSUMPTIONS = ["state values are finite python floats / ints (ints up to 10^6 so that float() is exact)",
                "XSD validation only for documents whose trajectory types the schema defines, generated in schema order"]
 SHARDS = {"quick": 2, "thorough": 16}
@@ -96,6 +96,8 @@ def run(ctx):
         for k in ("processor_name", "computation_time"):
             if k in spec["meta"]:
                 ctx.feature("meta." + k)
+                if type(spec["meta"][k]).__module__ == "numpy":
+                    ctx.feature("meta.%s.numpy-scalar" % k)
         shuffled = any([t for t, _ in p["states"]] != sorted(t for t, _ in p["states"]) for p in spec["pps"])
         if shuffled:
             ctx.feature("non-ascending-input")
